@@ -13,10 +13,11 @@ text that is really there.
   R2  stable alias   a local bound once to `self.<attr>` where <attr> is only ever stored in __init__ is replaced by
                      `self.<attr>`.
   R3  idioms         "{}_{}".format(a, b) -> f"{a}_{b}";  not (a == b) -> a != b (also is / in);
-                     `while True: if C: break; B` -> `while not C: B`;
+                     `while True: if C: break; B` -> `while not C: B`;  `if C: pass else: B` -> `if not C: B`;  a local `x: T = E` -> `x = E`;
                      `await L.acquire(); try: B finally: L.release()` -> `async with L: B` (same for the sync form);
                      `except E as e: if isinstance(e, T): A else: B` -> `except T as e: A  except E as e: B`;
                      `try: A except ..: <always leaves> else: E` -> `try: A except ..` followed by E.
+  R6  attr alias     `t = self.a` whose every use is evaluated before any await, call (logging aside) or store to `.a`: `self.a` is written for `t`.
   R5  single use     `t = E` followed at once by a statement that evaluates `t` exactly once, first and unconditionally (and `t` is bound and
                      read nowhere else): E is written in its place.
   R4  inlining       a call of a helper that is not one of the functions the rules are anchored in (ANCHORS: the
@@ -454,6 +455,34 @@ class _Idioms(ast.NodeTransformer):
                 setattr(node, field, self._body(v))
         return node
 
+    def _fn(self, node):
+        self.in_fn = getattr(self, 'in_fn', 0) + 1
+        node = self.generic_visit(node)
+        self.in_fn -= 1
+        return node
+    visit_FunctionDef = _fn
+    visit_AsyncFunctionDef = _fn
+
+    def visit_ClassDef(self, node):
+        saved, self.in_fn = getattr(self, 'in_fn', 0), 0
+        node = self.generic_visit(node)
+        self.in_fn = saved
+        return node
+
+    def visit_AnnAssign(self, node):
+        node = self.generic_visit(node)
+        # the annotation of a local is not behaviour (class-level annotated assignments are: dataclass fields)
+        if getattr(self, 'in_fn', 0) and node.value is not None and isinstance(node.target, (ast.Name, ast.Attribute)):
+            return _fix(ast.Assign(targets=[node.target], value=node.value, type_comment=None), node)
+        return node
+
+    def visit_If(self, node):
+        node = self.generic_visit(node)
+        if len(node.body) == 1 and isinstance(node.body[0], ast.Pass) and node.orelse:
+            node.test = _fix(_negate(node.test), node.test)
+            node.body, node.orelse = node.orelse, []
+        return node
+
     def visit_While(self, node):
         node = self.generic_visit(node)
         if isinstance(node.test, ast.Constant) and node.test.value is True and not node.orelse and node.body:
@@ -567,6 +596,83 @@ def _alias_pass(fn, stable):
     sub = _Subst(mapping)
     fn.body = [sub.visit(st) for st in fn.body]
     return len(mapping)
+
+
+# ------------------------------------------------------------------------------------------------- R6 short-lived attribute alias
+def _is_logger_call(c):
+    f = c.func
+    return isinstance(f, ast.Attribute) and ((isinstance(f.value, ast.Name) and f.value.id == 'logger') or (isinstance(f.value, ast.Attribute) and f.value.attr == 'logger'))
+
+def _attr_alias_pass(fn):
+    """`t = self.a` (t bound once) whose every use is evaluated before anything that could rebind self.a -- no await, no call other than logging
+    and the calls the uses themselves belong to, no store to `.a` between the binding and the last use: `self.a` is written where `t` was"""
+    counts = {}
+    for n in ast.walk(fn):
+        if isinstance(n, ast.Name) and isinstance(n.ctx, (ast.Store, ast.Del)):
+            counts[n.id] = counts.get(n.id, 0) + 1
+    params = {a.arg for a in fn.args.args + fn.args.kwonlyargs + fn.args.posonlyargs}
+    done = 0
+    def flat(stmts):
+        for st in stmts:
+            yield st
+    def try_block(stmts):
+        nonlocal done
+        i = 0
+        while i < len(stmts):
+            st = stmts[i]
+            for field in ('body', 'orelse', 'finalbody'):
+                v = getattr(st, field, None)
+                if isinstance(v, list) and v and isinstance(v[0], ast.stmt):
+                    try_block(v)
+            if isinstance(st, ast.Try):
+                for h in st.handlers:
+                    try_block(h.body)
+            ok = isinstance(st, ast.Assign) and len(st.targets) == 1 and isinstance(st.targets[0], ast.Name) and isinstance(st.value, ast.Attribute) \
+                and isinstance(st.value.value, ast.Name) and st.value.value.id == 'self' and counts.get(st.targets[0].id) == 1 and st.targets[0].id not in params
+            if ok:
+                t, attr = st.targets[0].id, st.value.attr
+                rest = stmts[i + 1:]
+                uses_outside = sum(1 for n in ast.walk(fn) if isinstance(n, ast.Name) and n.id == t and isinstance(n.ctx, ast.Load)) - \
+                    sum(1 for r in rest for n in ast.walk(r) if isinstance(n, ast.Name) and n.id == t and isinstance(n.ctx, ast.Load))
+                if uses_outside == 0 and _alias_region_clean(rest, t, attr):
+                    sub = _Subst({t: st.value})
+                    stmts[i + 1:] = [sub.visit(r) for r in rest]
+                    del stmts[i]
+                    done += 1
+                    continue
+            i += 1
+    try_block(fn.body)
+    return done
+
+def _alias_region_clean(rest, t, attr):
+    """walk the statements after the binding in evaluation order until the last use of t; nothing effectful before that point except calls that
+    take t as callee / receiver / argument (t is read before they run)"""
+    last = None
+    order = []
+    def visit(n):
+        # post-order = evaluation order for expressions (good enough: operands before the operation)
+        for ch in ast.iter_child_nodes(n):
+            visit(ch)
+        order.append(n)
+    for r in rest:
+        visit(r)
+    idx_uses = [k for k, n in enumerate(order) if isinstance(n, ast.Name) and n.id == t and isinstance(n.ctx, ast.Load)]
+    if not idx_uses:
+        return False
+    last = idx_uses[-1]
+    for k, n in enumerate(order[:last]):
+        if isinstance(n, (ast.Await, ast.Yield, ast.YieldFrom)):
+            return False
+        if isinstance(n, ast.Call) and not _is_logger_call(n):
+            f = n.func
+            on_t = (isinstance(f, ast.Name) and f.id == t) or (isinstance(f, ast.Attribute) and isinstance(f.value, ast.Name) and f.value.id == t)
+            if not on_t:          # a method of the aliased object itself does not rebind the attribute that holds it
+                return False
+        if isinstance(n, ast.Attribute) and n.attr == attr and isinstance(n.ctx, (ast.Store, ast.Del)):
+            return False
+        if isinstance(n, (ast.While, ast.For, ast.AsyncFor)):
+            return False          # a loop could bring a later effect before an earlier use
+    return True
 
 
 # ------------------------------------------------------------------------------------------------- R5 single-use locals
@@ -718,8 +824,16 @@ def _tailify(stmts, budget=[0]):
                 return out
             out.append(st)
             continue
+        if isinstance(st, ast.Try) and _contains(st, ast.Return):
+            # `try: ...; return E  except X: ...` as the last statement of the helper: the returns stay where they are (tail of the body, tails of the handlers)
+            if i != len(stmts) - 1 or st.orelse or _contains(st.finalbody, ast.Return) or not _always_returns(st.body):
+                raise NotInlinable('return inside a try block that is not the tail of the helper')
+            new = ast.Try(body=_tailify(st.body, budget), handlers=[ast.copy_location(ast.ExceptHandler(type=h.type, name=h.name, body=_tailify(h.body, budget) or [ast.Pass()]), h) for h in st.handlers],
+                          orelse=[], finalbody=st.finalbody)
+            out.append(ast.copy_location(new, st))
+            return out
         if _contains(st, ast.Return):
-            raise NotInlinable('return inside a loop, try or with block')
+            raise NotInlinable('return inside a loop or with block')
         out.append(st)
     return out
 
@@ -738,6 +852,12 @@ def _replace_returns(stmts, make, at):
             b = _replace_returns(st.body, make, st)
             o = _replace_returns(st.orelse, make, st)
             new = ast.If(test=st.test, body=b or [ast.copy_location(ast.Pass(), st)], orelse=o)
+            out.append(ast.copy_location(new, st))
+            return out
+        if isinstance(st, ast.Try) and _contains(st, ast.Return):
+            b = _replace_returns(st.body, make, st)
+            hs = [ast.copy_location(ast.ExceptHandler(type=h.type, name=h.name, body=_replace_returns(h.body, make, h) or [ast.copy_location(ast.Pass(), h)]), h) for h in st.handlers]
+            new = ast.Try(body=b or [ast.copy_location(ast.Pass(), st)], handlers=hs, orelse=[], finalbody=st.finalbody)
             out.append(ast.copy_location(new, st))
             return out
         out.append(st)
@@ -1307,5 +1427,6 @@ def normalize_module(name, tree, sibling_consts=None):
     for n in ast.walk(tree):
         if isinstance(n, (ast.FunctionDef, ast.AsyncFunctionDef)):
             report['single_use'] += _single_use_pass(n)
+            report['aliases'] += _attr_alias_pass(n)
     ast.fix_missing_locations(tree)
     return tree, report
